@@ -748,7 +748,7 @@ impl Monitor for C02 {
             end_fail = if rng.chance(1, 4) { Some(17_000 + rng.usize(n - 16_999)) } else { None };
         }
         let mut sim = Sim::new_with(rng, n, policy.clone(), end_fail, self.hostile, big);
-        let n_ops = 50 + rng.usize(self.max_ops.saturating_sub(49).max(1));
+        let mut n_ops = 50 + rng.usize(self.max_ops.saturating_sub(49).max(1));
         // initial chunk: small most of the time so that realign/shrink happen
         let c0 = match rng.below(6) {
             0 => 16384,
@@ -760,8 +760,54 @@ impl Monitor for C02 {
         };
         let mut problems = vec![];
         let mut ops_done = 0u64;
+        // now and then: a look-ahead of more than 1 MiB on a multi-MiB stream, a mark, then nearly all of it
+        // consumed and a refill (buffers in the MiB range take their own paths when they are given back)
+        let huge_lookahead = self.max_stream >= (1 << 20) && !self.hostile && !big && rng.chance(1, 120);
+        if huge_lookahead {
+            let n2 = (3 << 20) + rng.usize(1 << 20);
+            policy = if rng.chance(1, 2) {
+                Policy::OneShot
+            } else {
+                Policy::Random {
+                    mean_x10: 3_000_000,
+                    interrupts: false,
+                }
+            };
+            sim = Sim::new_with(rng, n2, policy.clone(), None, false, false);
+            rep.inc("histories_with_a_look_ahead_above_1_mib");
+            let la = (1 << 20) + rng.usize(1 << 20);
+            let small = rng.usize(300);
+            let keep = 1 + rng.usize(2000);
+            let script = vec![
+                Op::Request(la),
+                Op::Advance(small),
+                Op::SetMark,
+                Op::Observe,
+                Op::Advance(la.saturating_sub(small + keep).min(sim.r.buf_len())),
+                Op::Request(keep + 1 + rng.usize(40_000)),
+                Op::Observe,
+                Op::RequestMore,
+                Op::Observe,
+            ];
+            for op in script {
+                // amounts are clamped to what is buffered at that moment
+                let op = match op {
+                    Op::Advance(k) => Op::Advance(k.min(sim.r.buf_len())),
+                    o => o,
+                };
+                sim.history.push(op.clone());
+                let mut pr = sim.step(&op);
+                if self.only_discipline {
+                    pr.retain(|p| p.starts_with("[read-discipline]"));
+                }
+                problems.extend(pr);
+                ops_done += 1;
+            }
+            // a short random tail only (MiBs of stream under tiny chunks would cost minutes)
+            n_ops = ops_done as usize + 25;
+        }
         // (one history in four keeps the chunk size the constructor chose)
-        if !rng.chance(1, 4) {
+        if !huge_lookahead && !rng.chance(1, 4) {
             let first = Op::SetChunk(c0);
             sim.history.push(first.clone());
             problems.extend(sim.step(&first));
